@@ -79,7 +79,24 @@ pub fn pick_sel_kind(r: &mut Rng) -> SelKind {
 
 pub fn random_selection(r: &mut Rng, u: &Value) -> Value {
     let k = pick_sel_kind(r);
-    gen::gen_selection(r, u, k)
+    let sel = gen::gen_selection(r, u, k);
+    if r.chance(30) {
+        // a selection is a set of names: the order in which the holder lists them (here: shuffled
+        // at every level) is not the order in which the issuer issued them
+        fn shuffle(r: &mut Rng, v: &Value) -> Value {
+            match v {
+                Value::Object(m) => {
+                    let mut es: Vec<(String, Value)> = m.iter().map(|(k, v)| (k.clone(), shuffle(r, v))).collect();
+                    r.shuffle(&mut es);
+                    Value::Object(es.into_iter().collect())
+                }
+                Value::Array(a) => Value::Array(a.iter().map(|x| shuffle(r, x)).collect()),
+                x => x.clone(),
+            }
+        }
+        return shuffle(r, &sel);
+    }
+    sel
 }
 
 /// aud / nonce strings incl. empty, Unicode, '~', '.', and 1 KB values
@@ -132,6 +149,10 @@ pub fn gen_scenario(ctx: &Ctx, r: &mut Rng, cfg: Config) -> Scenario {
     let budget = node_budget(ctx, r);
     let mut g = GenCfg::new(cfg.profile, budget, api::now());
     g.safe_names = cfg.strat.is_custom();
+    if r.chance(12) {
+        // iss is any string: host:port, free text with a colon, URNs with blanks, empty, non-ASCII
+        g.iss = (*r.pick(&["127.0.0.1:8443", "Example Issuer: production", "urn:example:issuer 7", "", "issuer", "a:b", ":x", "https://issuer.example/\u{e9}\u{1f600}", "did:web:issuer.example", "mailto:ca@example.org", "ISSUER", " "])).to_string();
+    }
     let mut u = gen::gen_claims(r, &g);
     if cfg.holder.is_none() && r.chance(6) {
         // without a bound holder key `cnf` is an ordinary user claim of any JSON type
